@@ -1,7 +1,7 @@
 (* C20 - executable (binary64) instance of the models and result serialisers for the correspondence
    check.  No theorem depends on this file. *)
 From Coq Require Import List ZArith Bool PrimFloat.
-From Inferno Require Import Base.Num Base.NumF Gen.Interpolation Gen.Extrapolation C20.Model.
+From Inferno Require Import Base.Num Base.NumF Gen.Interpolation Gen.Extrapolation Gen.Distributions C20.Model.
 Import ListNotations.
 Open Scope float_scope.
 
@@ -19,6 +19,12 @@ Definition f_erf (z : float) : float :=
   else if 6 <=? z then 1
   else if z <=? -6 then -1
   else two_over_sqrtpi * f_exp (- (z * z)) * erf_series (z * z) 160 1 z z.
+
+(* lgamma at an integer-valued argument k + 1: ln(k!) *)
+Definition f_lgamma (x : float) : float := f_ln (f_ofZ (factZ (Z.to_nat (f2Z_trunc x - 1)))).
+(* gammaincc(a, x) at an integer-valued a >= 1: exp(-x) * sum_{j < a} x^j / j! *)
+Definition f_gammaincc (a x : float) : float :=
+  f_exp (- x) * Num.tsum FN (map (fun j => Num.pown FN x j / f_ofZ (factZ j)) (seq 0 (Z.to_nat (f2Z_trunc a)))).
 
 (* ---- interp / extrap pairs ---- *)
 Definition FT := Num.T FN.
@@ -78,9 +84,10 @@ Definition lognormal_mv_case (m v : float) : tree :=
   let p := lognormal_params_mv FN m v in
   ser_list ser_float [fst p; snd p; lognormal_mean FN (fst p) (snd p); lognormal_variance FN (fst p) (snd p)].
 Definition poisson_case (k : nat) (support rate : float) : tree :=
+  let kf := f_ofZ (Z.of_nat k) in
   ser_list ser_float
-    [poisson_pmf_ext FN k rate;
-     match poisson_logpmf_ext FN k rate with None => neg_infinity | Some l => l end;
-     (* the formula as written, evaluated in IEEE arithmetic (log 0 = -inf natively): must agree with the above *)
-     poisson_pmf FN k rate; poisson_logpmf FN k rate; poisson_cdf FN support rate;
-     poisson_logcdf FN support rate; poisson_mean FN rate; poisson_variance FN rate].
+    [poisson_pmf_ext FN f_lgamma k rate;
+     match poisson_logpmf_ext FN f_lgamma k rate with None => neg_infinity | Some l => l end;
+     (* the generated formula evaluated in IEEE arithmetic (log 0 = -inf natively): must agree with the above *)
+     poisson_pmf FN f_lgamma kf rate; poisson_logpmf FN f_lgamma kf rate; poisson_cdf FN f_gammaincc support rate;
+     poisson_logcdf FN f_gammaincc support rate; poisson_mean FN rate; poisson_variance FN rate].
